@@ -34,7 +34,7 @@ def in_domain(cs, x):
     for i, c in enumerate(cs):
         if i > 0:
             pw *= xa
-            if (i & (i - 1)) == 0 and pw != 0 and not (LO <= pw <= HI):
+            if i >= 2 and (i & (i - 1)) == 0 and pw != 0 and not (LO <= pw <= HI):      # x itself is given, not formed
                 return False
         t = abs(c) * pw
         if t != 0 and not (LO <= t <= HI):
@@ -84,8 +84,31 @@ def subnormal_coef_case(rng, k):
     return cs, x
 
 
+def extreme_product_case(rng, k):
+    """one coefficient near the top (or bottom) of the binary64 range and |x| at the other end, so that the monomial c_i x^i is an
+    ordinary number and every power of x the scheme forms stays in range: intermediate scalings of c_i or x alone must not overflow"""
+    import math
+    i = rng.randint(1, k)
+    if 300 // i + 1 > 940 // k:
+        i = k
+    big = rng.random() < 0.5
+    e = rng.randint(300 // i + 1, min(1020, 940 // max(1, k))) if k > 1 else rng.randint(960, 1020)
+    ex = -e if big else e                       # exponent of |x|
+    x = rng.choice([1.0, -1.0]) * math.ldexp(rng.choice([1.0, 1.5]), ex)
+    cs = [0.0] * (k + 1)
+    cs[i] = rng.choice([1.0, -1.0, 3.0]) * math.ldexp(1.0, -ex * i + rng.randint(-3, 3))
+    if abs(-ex * i) > 1020:
+        cs[i] = rng.choice([1.0, -1.0]) * math.ldexp(1.0, 1020 if -ex * i > 0 else -1020)
+    cs[0] = rng.choice([1.0, -2.0, 0.0, 0.5])
+    return cs, x
+
+
 def coeffs(rng, n):
-    style = rng.choice(["int", "int", "log", "log", "cancel", "small", "sparse", "no_const"])
+    style = rng.choice(["int", "int", "log", "log", "cancel", "small", "sparse", "no_const", "even", "odd"])
+    if style in ("even", "odd"):
+        # every other coefficient exactly zero (even / odd functions), the rest ordinary - leading one included
+        par = 0 if style == "even" else 1
+        return style, [(rng.choice([1.0, -2.0, 3.0, 4.0, rng.uniform(-3, 3)]) if i % 2 == par else rng.choice([0.0, 0.0, -0.0])) for i in range(n)]
     if style == "no_const":
         # no constant term: the value is of the size of c1*x, so anything that drops the higher terms for small |x| shows
         return style, [rng.choice([0.0, -0.0])] + [rng.choice([1.0, -2.0, rng.uniform(-3, 3), rng.small_int(-5, 5)]) for _ in range(n - 1)]
@@ -151,6 +174,9 @@ class P(Prop):
                     cs, x = window_case(rng, k + 1)
                     out.append(K.kernel_case("Poly%d::evaluate" % k, cs + [x], cls="poly/window"))
             if k >= 1:
+                for _ in range(max(3, per // 4)):
+                    cs, x = extreme_product_case(rng, k)
+                    out.append(K.kernel_case("Poly%d::evaluate" % k, cs + [x], cls="poly/extreme_product"))
                 for _ in range(max(3, per // 4)):
                     cs, x = subnormal_coef_case(rng, k)
                     out.append(K.kernel_case("Poly%d::evaluate" % k, cs + [x], cls="poly/subnormal_coef"))
